@@ -6,7 +6,7 @@ From TP Require Import PMon PRun PExamples.
     cancelled, gather_and_close(return_exceptions=False) then ends cancelled although no user
     exception was ever raised: [C08_returns_normally]. *)
 Definition tr_self8 : list label :=
-  [ LOp (OpApply 1 false false w_sp CbNone CbNone None); LRun (HT (TM 0)); LRun (HT (TP 0)); LGo;
+  [ LOp (OpApply 1 [] false w_sp CbNone CbNone None); LRun (HT (TM 0)); LRun (HT (TP 0)); LGo;
     LOp (OpFinish 0 FinReturn); LRun (HT (TP 0)); LOp (OpCancel [0]); LGo;
     LOp (OpDriver (DGatherClose false)); LRun (HT (TD 0)) ].
 
@@ -26,7 +26,7 @@ Definition tr_iter8 : list label :=
   [ LOp (OpMap 0 [elr8; elr8] 2 false CbNone CbNone (Some (GUser 1)));
     LRun (HT (TM 0));
     LOp (OpCancelGroup (GUser 1));
-    LOp (OpApply 1 false false w_ret8 CbNone CbNone (Some (GUser 1)));
+    LOp (OpApply 1 [] false w_ret8 CbNone CbNone (Some (GUser 1)));
     LGo; LGo; LGo;
     LRun (HT (TM 1));
     LRun (HT (TP 0)); LGo; LRun (HT (TP 1)); LGo;
